@@ -706,15 +706,33 @@ func (f *FS) createTemp(dir, pattern string) (*os.File, error) {
 
 // glob: filepath.Glob for patterns whose directory part has no metacharacters.
 func (f *FS) glob(pattern string) ([]string, error) {
-	dir, file := filepath.Split(pattern)
-	dir = filepath.Clean(dir)
-	if _, err := filepath.Match(file, ""); err != nil {
+	if _, err := filepath.Match(pattern, ""); err != nil {
 		return nil, err
 	}
+	if !strings.ContainsAny(pattern, `*?[\`) {
+		if f.lookup(pattern) == nil {
+			return nil, nil
+		}
+		return []string{pattern}, nil
+	}
+	dir, file := filepath.Split(pattern)
+	dir = filepath.Clean(dir)
+	// like the real Glob, the directory part is a pattern too: a directory whose name contains '[' is only found
+	// if the pattern (read as a pattern) matches it
+	dirs := []string{dir}
+	if strings.ContainsAny(dir, `*?[\`) {
+		var err error
+		dirs, err = f.glob(dir)
+		if err != nil {
+			return nil, err
+		}
+	}
 	var out []string
-	for _, n := range f.children(dir) {
-		if ok, _ := filepath.Match(file, filepath.Base(n.path)); ok {
-			out = append(out, n.path)
+	for _, d := range dirs {
+		for _, n := range f.children(d) {
+			if ok, _ := filepath.Match(file, filepath.Base(n.path)); ok {
+				out = append(out, n.path)
+			}
 		}
 	}
 	sort.Strings(out)
